@@ -835,6 +835,20 @@ func (g *gen) build(k knobs) string {
 		} else {
 			m.sigs = append(m.sigs, s)
 		}
+		if g.chance(0.4) {
+			// further multiplexer switches (signed or not) and multiplexed signals AFTER the signed one: every one of
+			// them owes its own diagnostic, whatever was reported for the earlier signals of the message
+			for j := 1 + g.r.Intn(2); j > 0; j-- {
+				s2 := b.cleanSignal(m, sigNames(m))
+				s2.mux, s2.signed = "M", g.chance(0.5)
+				m.sigs = append(m.sigs, s2)
+			}
+			if g.chance(0.5) {
+				s3 := b.cleanSignal(m, sigNames(m))
+				s3.mux = fmt.Sprintf("m%d", g.r.Intn(3))
+				m.sigs = append(m.sigs, s3)
+			}
+		}
 	}
 	for i := 0; i < k.muxNoSwitch; i++ {
 		m := b.plainMessage()
